@@ -22,9 +22,15 @@ TraceInit ==
 Matches(lb, e) == /\ e.ev = lb.k
                   /\ \A f \in DOMAIN lb \ {"k"} : f \in DOMAIN e /\ e[f] = lb[f]
 
+\* a Tick event also carries the values of the program's shares as read from the real store at that tick
+\* boundary (only shares that were ever written): they must equal the specification's store
+StoreAgrees(e) == (e.ev = "Tick" /\ HasField(e, "store")) =>
+                     \A s \in DOMAIN e.store : s \in DOMAIN store' /\ store'[s] = e.store[s]
+
 Observe == IF lab'.k = "silent" THEN UNCHANGED <<tid, l>>
            ELSE /\ l <= TraceLen(tid)
                 /\ Matches(lab', Ev)
+                /\ StoreAgrees(Ev)
                 /\ l' = l + 1 /\ UNCHANGED tid
 
 TraceNext ==
